@@ -6,14 +6,12 @@ response with; `runI` + `doneBranch` is what the model's wrapper hands to the cl
 
   * `stream_inv_run`              the invariant tying `Spec.Stream` to the model's (real writer, timeoutWriter) pair along every
                                   script that completes — Flush included
-  * `complete_is_specF_partial`   EVERY completing script, Flush included: status and body of the model's complete response
-                                  are those of `Spec.completeF`.
-                                  FULL statement (not proven): `Spec.ofRec (doneBranch (runI script).1 (runI script).2) =
-                                  Spec.completeF script`; missing: the header component (the sorted association list of
-                                  `Stream.hdrs` / the headers frozen by the first Flush against `hmerge` + `Rec.snap`);
-                                  for Flush-free scripts `complete_is_spec` has it (lookup-wise).
-  * `streamed_prefix_is_flushed_partial`  what `Spec.streamedPrefix script i` says is with the client after i actions has the
-                                  status and body of the model's real writer `(runI (script.take i)).1`
+  * `complete_is_specF`           EVERY completing script, Flush included: the client view (status, headers, body) of the
+                                  model's complete response IS `Spec.completeF script`  (round 5d: full statement; the
+                                  monitor's `Stream` keeps the header map as the work set it and canonicalises it with the
+                                  same `Spec.canonH` as `Spec.ofRec`)
+  * `streamed_prefix_is_flushed`  what `Spec.streamedPrefix script i` says is with the client after i actions IS the client
+                                  view of the model's real writer `(runI (script.take i)).1`; `streamed_prefix_none_is_untouched`
 -/
 import GoZero.C04.Props
 namespace GoZero.C04.Props
@@ -30,20 +28,57 @@ structure StreamInv (p : Rec × TW) (st : Spec.Stream) : Prop where
   wrote : p.1.wrote = p.2.flushed
   scode : ∀ c h, st.sent = some (c, h) → p.1.code = c
   nof : st.sent = none → st.flushed = []
+  hd : st.hdrs = p.2.h
+  nd : keysNodup p.2.h
+  wh : p.2.flushed = false → p.1.hdr = [] ∧ p.1.snap = none
+  ss : ∀ c h, st.sent = some (c, h) → p.1.snap = some h
+
+theorem hset_fresh (d : Hdrs) (k v : Nat) (hk : ∀ p ∈ d, p.1 ≠ k) : hset d k v = d ++ [(k, v)] := by
+  unfold hset
+  congr 1
+  apply List.filter_eq_self.mpr
+  intro p hp
+  simpa using hk p hp
+
+/-- copying a map without duplicate keys into a map that has none of its keys appends it -/
+theorem hmerge_fresh (d s : Hdrs) (hs : keysNodup s) (hd : ∀ p ∈ d, ∀ q ∈ s, p.1 ≠ q.1) : hmerge d s = d ++ s := by
+  induction s generalizing d with
+  | nil => simp [hmerge]
+  | cons q qs ih =>
+    unfold keysNodup at hs
+    simp only [List.map_cons, List.nodup_cons] at hs
+    have h1 : hset d q.1 q.2 = d ++ [(q.1, q.2)] := hset_fresh d q.1 q.2 (fun p hp => hd p hp q (by simp))
+    have h2 := ih (d ++ [(q.1, q.2)]) hs.2 (by
+      intro p hp r hr
+      simp only [List.mem_append, List.mem_singleton] at hp
+      rcases hp with hp | hp
+      · exact hd p hp r (by simp [hr])
+      · subst hp
+        intro he
+        exact hs.1 (by simp only [List.mem_map]; exact ⟨r, hr, he.symm⟩))
+    unfold hmerge at h2 ⊢
+    simp only [List.foldl_cons]
+    rw [h1, h2]
+    simp
+
+theorem hmerge_nil (s : Hdrs) (hs : keysNodup s) : hmerge [] s = s := by
+  simpa using hmerge_fresh [] s hs (by simp)
 
 theorem streamInv_init : StreamInv (Rec.init, TW.init) {} := by
-  constructor <;> simp [Rec.init, TW.init]
+  constructor <;> simp [Rec.init, TW.init, keysNodup]
 
 theorem streamInv_step (p : Rec × TW) (st : Spec.Stream) (a : Act) (rest : List Act) (hi : StreamInv p st)
     (hc : Spec.completes (a :: rest) p.2.wroteHeader = true) :
     StreamInv (seqStep p a) (st.step a) ∧ Spec.completes rest (seqStep p a).2.wroteHeader = true := by
   obtain ⟨w, t⟩ := p
-  obtain ⟨i1, i2, i3, i4, i5, i6, i7, i8, i9⟩ := hi
-  simp only at i1 i2 i3 i4 i5 i6 i7 i8 i9 hc
+  obtain ⟨i1, i2, i3, i4, i5, i6, i7, i8, i9, j1, j2, j3, j4⟩ := hi
+  simp only at i1 i2 i3 i4 i5 i6 i7 i8 i9 j1 j2 j3 j4 hc
+  have hm : hmerge [] t.h = t.h := hmerge_nil t.h j2
   cases a with
   | setHeader k v =>
     simp only [Spec.completes] at hc
     refine ⟨?_, by simpa [seqStep, twStep] using hc⟩
+    have hn := keysNodup_hset t.h k v j2
     constructor <;> simp_all [seqStep, twStep, Spec.Stream.step] <;> (try assumption)
   | panic v => simp [Spec.completes] at hc
   | writeHeader c =>
@@ -101,20 +136,20 @@ theorem stream_inv_run (acts : List Act) (p : Rec × TW) (st : Spec.Stream) (hi 
     obtain ⟨h1, h2⟩ := streamInv_step p st a rest hi hc
     simpa [runF] using ih (seqStep p a) (st.step a) h1 h2
 
-/-- **Monitor soundness for streaming handlers, status and body.**  For EVERY script that completes — `Flush` anywhere,
-any number of times — the model's complete response (`case <-done` after the handler's own run) has the status and the
-body that `Spec.completeF`, the monitor's notion of "the work's complete result", demands. -/
-theorem complete_is_specF_partial (script : List Act) (hc : Spec.completes script false = true) :
-    (doneBranch (runI script).1 (runI script).2).code = (Spec.completeF script).code ∧
-    (doneBranch (runI script).1 (runI script).2).body = (Spec.completeF script).body := by
+/-- **Monitor soundness for streaming handlers — status, headers and body.**  For EVERY script that completes — `Flush`
+anywhere, any number of times — the client view of the model's complete response (`case <-done` after the handler's own
+run) IS `Spec.completeF`, the monitor's notion of "the work's complete result". -/
+theorem complete_is_specF (script : List Act) (hc : Spec.completes script false = true) :
+    Spec.ofRec (doneBranch (runI script).1 (runI script).2) = Spec.completeF script := by
   have hi := stream_inv_run script (Rec.init, TW.init) {} streamInv_init (by simpa [TW.init] using hc)
   have hr : runF (Rec.init, TW.init) script = runI script := rfl
   rw [hr] at hi
-  obtain ⟨i1, i2, i3, i4, i5, i6, i7, i8, i9⟩ := hi
+  obtain ⟨i1, i2, i3, i4, i5, i6, i7, i8, i9, j1, j2, j3, j4⟩ := hi
   generalize runI script = p at *
   obtain ⟨w, t⟩ := p
-  simp only at i1 i2 i3 i4 i5 i6 i7 i8 i9
-  unfold Spec.completeF Spec.stream
+  simp only at i1 i2 i3 i4 i5 i6 i7 i8 i9 j1 j2 j3 j4
+  have hm : hmerge [] t.h = t.h := hmerge_nil t.h j2
+  unfold Spec.completeF Spec.stream Spec.ofRec
   generalize List.foldl Spec.Stream.step {} script = st at *
   cases hs : st.sent with
   | some v =>
@@ -122,11 +157,13 @@ theorem complete_is_specF_partial (script : List Act) (hc : Spec.completes scrip
     have hf : t.flushed = true := by simpa [hs] using i6.symm
     have hwr : w.wrote = true := by rw [i7, hf]
     have hcd := i8 c h hs
-    simp [doneBranch, hf, Rec.write, Rec.writeHeader, hwr, hcd, i1, i2, hs]
+    have hsn := j4 c h hs
+    simp [doneBranch, hf, Rec.write, Rec.writeHeader, hwr, hcd, hsn, i1, i2, hs]
   | none =>
     have hf : t.flushed = false := by simpa [hs] using i6.symm
     have hwr : w.wrote = false := by rw [i7, hf]
     have hfl := i9 hs
+    obtain ⟨hh, hsn⟩ := j3 hf
     by_cases hcode : t.code = 200
     · by_cases hwh : t.wroteHeader = true <;>
         simp_all [doneBranch, Rec.write, Rec.writeHeader]
@@ -134,11 +171,11 @@ theorem complete_is_specF_partial (script : List Act) (hc : Spec.completes scrip
       · simp_all [doneBranch, Rec.write, Rec.writeHeader]
       · exact absurd (i4 (by simpa using hwh)) hcode
 
-/-- what the monitor says is already with the client after the first `i` actions (`Spec.streamedPrefix`) has the status and
-the body of the model's real writer at that moment (for a script prefix that runs without a panic) -/
-theorem streamed_prefix_is_flushed_partial (script : List Act) (i : Nat)
+/-- what the monitor says is already with the client after the first `i` actions (`Spec.streamedPrefix`) IS the client
+view of the model's real writer at that moment — status, headers and body (for a script prefix that runs without a panic) -/
+theorem streamed_prefix_is_flushed (script : List Act) (i : Nat)
     (hc : Spec.completes (script.take i) false = true) (v : Spec.View) (hv : Spec.streamedPrefix script i = some v) :
-    (runI (script.take i)).1.code = v.code ∧ (runI (script.take i)).1.body = v.body := by
+    Spec.ofRec (runI (script.take i)).1 = v := by
   have hi := stream_inv_run (script.take i) (Rec.init, TW.init) {} streamInv_init (by simpa [TW.init] using hc)
   have hr : runF (Rec.init, TW.init) (script.take i) = runI (script.take i) := rfl
   rw [hr] at hi
@@ -150,7 +187,56 @@ theorem streamed_prefix_is_flushed_partial (script : List Act) (i : Nat)
   | some c =>
     simp [hs] at hv
     subst hv
-    exact ⟨hi.scode c.1 c.2 (by rw [hs]), hi.flu.symm⟩
+    have h1 := hi.scode c.1 c.2 (by rw [hs])
+    have h2 := hi.ss c.1 c.2 (by rw [hs])
+    simp [Spec.ofRec, h1, h2, hi.flu]
+
+/-- … and nothing is with the client (`Spec.streamedPrefix = none`) only when nothing has been written to the model's real writer -/
+theorem streamed_prefix_none_is_untouched (script : List Act) (i : Nat)
+    (hc : Spec.completes (script.take i) false = true) (hv : Spec.streamedPrefix script i = none) :
+    (runI (script.take i)).1.wrote = false ∧ (runI (script.take i)).1.body = [] ∧ (runI (script.take i)).1.hdr = [] ∧
+      (runI (script.take i)).1.snap = none := by
+  have hi := stream_inv_run (script.take i) (Rec.init, TW.init) {} streamInv_init (by simpa [TW.init] using hc)
+  have hr : runF (Rec.init, TW.init) (script.take i) = runI (script.take i) := rfl
+  rw [hr] at hi
+  unfold Spec.streamedPrefix Spec.stream at hv
+  generalize runI (script.take i) = p at *
+  generalize List.foldl Spec.Stream.step {} (script.take i) = st at *
+  have hs : st.sent = none := by simpa using hv
+  have hf : p.2.flushed = false := by simpa [hs] using hi.sent.symm
+  obtain ⟨h1, h2⟩ := hi.wh hf
+  have h3 : p.1.wrote = false := by rw [hi.wrote, hf]
+  have h4 : p.1.body = [] := by rw [← hi.flu]; exact hi.nof hs
+  exact ⟨h3, h4, h1, h2⟩
+
+/-! ### a handler goroutine that ends by `runtime.Goexit` (or blocks for good)
+
+`runtime.Goexit` runs the deferred calls of ServeHTTP's worker goroutine — `recover()` returns nil, so nothing is sent on
+`panicChan` — and `close(done)` is never reached: for ServeHTTP such a handler is one that has performed a prefix of its
+script and never takes another step.  The transition system has those schedules already; what the property demands of
+them: -/
+
+/-- while the handler goroutine has neither returned nor panicked, ServeHTTP cannot come back through `done` or through
+`panicChan`: the ONLY way out is the timeout branch (always enabled once the context has ended:
+`timeout_branch_always_enabled`), whose response `response_with_flush` describes — never the "complete" result of the
+prefix the handler happened to perform -/
+theorem stalled_handler_returns_only_by_timeout (reason : List Nat) (script : List Act) (s : St)
+    (hr : Reachable reason script s) (hrun : s.hst = .running) :
+    step reason s .mDone = none ∧ step reason s .mPanic = none := by
+  have hi := inv_reachable hr
+  have hd : s.done = false := by
+    cases h : s.done with
+    | false => rfl
+    | true => have := hi.done_fin.mp h; rw [hrun] at this; cases this
+  have hp : s.panicChan = none := by
+    cases h : s.panicChan with
+    | none => rfl
+    | some v => have := hi.pan v h; rw [hrun] at this; cases this
+  constructor
+  · simp only [step]; split <;> simp [hd]
+  · simp only [step, hp]; split <;> simp_all
+
+example : step [82] (St.init [.write [97]]) .mDone = none := by decide
 
 /-! ### non-vacuity -/
 example : Spec.completes [.writeHeader 404, .write [97], .flush, .write [98], .flush, .setHeader 1 2, .write [99]] false = true := by decide
